@@ -87,9 +87,10 @@ def tree_hash(repo):
     for base, sub in ((repo, 'src'), (ROOT, 'kani')):
         for dp, dn, fn in os.walk(os.path.join(base, sub)):
             for f in fn:
-                if f.endswith('.rs') or f.endswith('.py'):
+                if f.endswith('.rs'):
                     files.append(os.path.join(dp, f))
     files += [os.path.join(repo, 'Cargo.toml'), os.path.join(repo, 'Cargo.lock')]
+    h.update(repr(sorted(GROUP_FLAGS.items())).encode())
     for f in sorted(files):
         try:
             h.update(f.encode() + b'\0' + open(f, 'rb').read() + b'\0')
@@ -132,40 +133,61 @@ def _run_for(prop, tier, repo, build, cache):
             res.append(r)
     items = [h for h in items if h[0] not in cache]
     for grp in sorted(set(h[4] for h in items)):
-        g = [h for h in items if h[4] == grp]
-        t0 = time.time()
+        g_all = [h for h in items if h[4] == grp]
         tgt = os.path.join(build, GROUP_TARGET.get(grp, 'kani-target'))
-        cmd = ['cargo', 'kani', '--no-default-features', '--target-dir', tgt, '-j', str(GROUP_JOBS.get(grp, 2)), '--output-format=terse'] + GROUP_FLAGS[grp]
-        for h in g:
-            cmd += ['--harness', h[0]]
-        try:
-            p = subprocess.run(cmd, cwd=repo, env=env, capture_output=True, text=True, timeout=3 * 3600)
-            out = p.stdout + p.stderr
-        except subprocess.TimeoutExpired:
+        base = ['cargo', 'kani', '--no-default-features', '--target-dir', tgt]
+        # batches: one crashed CBMC process takes down the whole `cargo kani -j` invocation (driver panic "No exit code?"),
+        # so harnesses are run in batches and any harness left without a result is re-run on its own
+        batches = [g_all[i:i + 10] for i in range(0, len(g_all), 10)]
+        for g in batches:
+            t0 = time.time()
+            cmd = base + ['-j', str(GROUP_JOBS.get(grp, 2)), '--output-format=terse'] + GROUP_FLAGS[grp]
             for h in g:
-                res.append({'harness': h[0], 'kind': h[3], 'status': 'inconclusive', 'reason': 'timeout', 'wall_s': time.time() - t0, 'obligations': 1, 'discharged': 0})
-            continue
-        wall = round(time.time() - t0, 1)
-        parsed = parse(out)
-        shown = ' '.join(cmd[:9]) + ' --harness <%d harnesses of group %s>' % (len(g), grp)
-        for name, props, t, kind, _ in g:
-            r = {'harness': name, 'kind': kind, 'wall_s': round(wall / max(1, len(g)), 1), 'obligations': 1, 'cmd': shown, 'assumptions': [ASSUME[grp]]}
-            ok, failed, cover = parsed.get(name, (None, [], None))
-            needs_cover = grp in ('nofloatchecks', 'sse')
-            if ok is False and grp in SPURIOUS and failed and all(SPURIOUS[grp].match(f) for f in failed):
-                ok = True
-                r['ignored_checks'] = sorted(set(failed))
-            if ok is True and needs_cover and (cover is None or cover[0] != cover[1] or cover[1] == 0):
-                r.update(status='inconclusive', discharged=0, reason='VACUITY: the end of the harness is not reachable (cover %s)' % (cover,))
-            elif ok is True:
-                r.update(status='ok', discharged=1)
-                if cover:
-                    r['cover'] = '%d of %d reachability covers satisfied' % cover
-            elif ok is False:
-                r.update(status='fail', discharged=0)
-                r['failures'] = [{'obligation': 'kn:' + name, 'function': name, 'message': 'Kani harness failed: ' + '; '.join(failed[:3]),
-                                  'where': [], 'rendered': 'harness %s\n' % name + '\n'.join('Failed Checks: ' + f for f in failed[:10]), 'tags': []}]
-            else:
-                r.update(status='inconclusive', discharged=0, reason='no result for this harness: ' + out[-400:])
-            res.append(r)
+                cmd += ['--harness', h[0]]
+            out = ''
+            try:
+                p = subprocess.run(cmd, cwd=repo, env=env, capture_output=True, text=True, timeout=3 * 3600)
+                out = p.stdout + p.stderr
+            except subprocess.TimeoutExpired:
+                out = 'timeout'
+            wall = round(time.time() - t0, 1)
+            parsed = parse(out)
+            shown = ' '.join(cmd[:9]) + ' ' + ' '.join(GROUP_FLAGS[grp]) + ' --harness <%d harnesses of group %s>' % (len(g), grp)
+            for h in g:
+                name = h[0]
+                w = round(wall / max(1, len(g)), 1)
+                if parsed.get(name, (None, [], None))[0] is None:
+                    t1 = time.time()
+                    cmd1 = base + GROUP_FLAGS[grp] + ['--harness', name]
+                    try:
+                        p1 = subprocess.run(cmd1, cwd=repo, env=env, capture_output=True, text=True, timeout=3600)
+                        out1 = p1.stdout + p1.stderr
+                    except subprocess.TimeoutExpired:
+                        out1 = 'timeout'
+                    parsed1 = parse('Checking harness %s...\n' % name + out1)
+                    parsed[name] = parsed1.get(name, [None, [], None])
+                    if parsed[name][0] is None:
+                        parsed[name] = [None, [], None, out1[-400:]]
+                    w = round(time.time() - t1, 1)
+                res.append(result_of(h, grp, parsed.get(name), w, shown))
     return res
+
+
+def result_of(h, grp, pr, wall, shown):
+    name, props, t, kind, _ = h
+    r = {'harness': name, 'kind': kind, 'wall_s': wall, 'obligations': 1, 'cmd': shown, 'assumptions': [ASSUME[grp]]}
+    ok, failed, cover = (pr[0], pr[1], pr[2]) if pr else (None, [], None)
+    needs_cover = grp in ('nofloatchecks', 'sse')
+    if ok is True and needs_cover and (cover is None or cover[0] != cover[1] or cover[1] == 0):
+        r.update(status='inconclusive', discharged=0, reason='VACUITY: the end of the harness is not reachable (cover %s)' % (cover,))
+    elif ok is True:
+        r.update(status='ok', discharged=1)
+        if cover:
+            r['cover'] = '%d of %d reachability covers satisfied' % cover
+    elif ok is False:
+        r.update(status='fail', discharged=0)
+        r['failures'] = [{'obligation': 'kn:' + name, 'function': name, 'message': 'Kani harness failed: ' + '; '.join(failed[:3]),
+                          'where': [], 'rendered': 'harness %s\n' % name + '\n'.join('Failed Checks: ' + f for f in failed[:10]), 'tags': []}]
+    else:
+        r.update(status='inconclusive', discharged=0, reason='no result for this harness: ' + (pr[3] if pr and len(pr) > 3 else ''))
+    return r
